@@ -64,6 +64,8 @@ KANI_HARNESSES = {
                           default_tag="C13.safety"),
     "k_clamp_limit": H("maybenot", "action::verif_proofs", "k_clamp_limit", "Action::sample_limit", AC,
                        default_tag="C13.safety"),
+    "k_sample_fields": H("maybenot", "action::verif_proofs", "k_sample_fields", "Action::sample_timeout / sample_duration / sample_limit", AC,
+                         default_tag="C04.safety"),
     "k_counter_value": H("maybenot", "counter::verif_proofs", "k_counter_value", "Counter::sample_value", CO,
                          default_tag="C13.safety"),
     "k_ffi_convert_action": H("maybenot-ffi", "verif_proofs", "k_ffi_convert_action", "convert_action", FFI,
@@ -111,14 +113,14 @@ PROPS = {
             "explanation": "K-PAD: Kani function contract on the real below_limit_padding, all u64 counters, all fractions in [0,1], bit-precise IEEE-754: true => state limit > 0 and (budget left or both fractions below, zero packets counting as below). V-FW: a slot that changes to SendPadding satisfies pad_budget_ok on the accounting of that moment [C02.prov]; machine steps never write the accounting and process_event counts NormalSent / PaddingSent (any id) before the machines run [C02.acct]; folded over the machine loops, the event loop and the signal rounds: after a call that reports ONE event every returned SendPadding slot satisfies pad_budget_ok on the final accounting [C02.single] - the statement of the property, as a postcondition of trigger_events."},
     "C03": {"verus": ["vfw"], "kani": ["k_blk"], "title": "Blocking budgets",
             "explanation": "K-BLK: Kani function contract on the real below_limit_blocking over a virtual clock (u64 microseconds) whose division is abstracted to an arbitrary function (Ackermann encoding), so the result holds for every clock with a deterministic div_duration_f64. V-FW (generic in T): accounting step of BlockingBegin / BlockingEnd with saturating time differences, repeated begins keep the first start [C03.acct]; provenance of BlockOutgoing slots [C03.prov]; postcondition of trigger_events for single-event calls [C03.single]."},
-    "C04": {"verus": ["vfw"], "kani": ["k_clamp_timeout", "k_clamp_duration"], "title": "Output contract",
+    "C04": {"verus": ["vfw"], "kani": ["k_clamp_timeout", "k_clamp_duration", "k_sample_fields"], "title": "Output contract",
             "explanation": "Slot invariant for every reachable framework state: slot i is None or an action naming machine i with kind / flags / timer of the action declared in some state of machine i and every duration <= 86 400 000 000 us [C04.slot][C04.shape]; every call starts from empty slots [C04.clear]; transition is the identity on ended machines and, folded over the loops of a call, a machine that had ended before the call stays ended and its slot is None at return [C04.end] (postcondition of trigger_events); the clamps of sample_timeout / sample_duration are proved by Kani for every f64 the distribution could return [C04.clamp]. 'At most one action per machine, distinct machines' is the slot invariant plus the dropped iterator tail (assumed)."},
     "C05": {"verus": ["vsem"], "kani": [], "ambient_scan": True, "untagged": "C05.sem", "title": "Deterministic function matching the stated semantics",
             "explanation": "V-SEM: the real bodies of trigger_events, process_event, transition, update_counter, schedule_action, decrement_limit and below_action_limits are proved to satisfy `final.view() == sem_f(old.view(), args)` where view() is the whole instance as a mathematical value (runtimes, slots, RNG, clock, accounting, pending signal) and sem_trigger / sem_event / sem_all / sem_round / sem_transition / sem_update_counter / sem_schedule / sem_decrement are spec functions written from the documented operational semantics (events in order, machines in index order, LimitReached and CounterZero at once, one round of signals). Equality with a function is determinism: equal instances (e.g. an instance and its clone) fed equal inputs have equal views and return equal slots. Assumed: every leaf sampler is a function of its arguments and the RNG state, the two limit predicates and the clock arithmetic are functions of their arguments [C05.det] - justified by the mechanical ambient-authority scan [C05.ambient] (no static mut, thread_local, Cell/RefCell/Atomic, Instant::now, SystemTime, thread_rng, OsRng, unsafe in the non-test code of crates/maybenot/src); Framework::new is not covered."},
     "C06": {"verus": ["vfw"], "kani": ["k_event_index", "k_sample_none", "k_sample_1", "k_sample_2", "k_sample_3", "k_sample_4"],
             "title": "Transition probabilities",
             "explanation": "V-FW (unbounded in the list length): the real body of State::sample_state returns pick(list, r, 0) where r is the single uniform draw and pick is written from the statement - thresholds are the running f32 sums p1, p1+p2, .. in list order, the first threshold above r wins, no threshold above r => no transition, no list for the event => None and no draw [C06.pick][C06.draw]; f32 < and + are uninterpreted functions of their operands there (rules R11, R12, R15). K-SAMPLE (bit-precise, BOUNDED in the list length: k = 1, 2, 3 quick; 4 thorough): sample_state executed through the real rand 0.8 gen_range(0.0..1.0) equals the cumulative-threshold specification for every 32-bit RNG word and every validated probability vector, a probability-1 transition is always taken, Event::to_usize is the discriminant. The counting step from thresholds to shares (within 2^-23) is done on paper in DESIGN.md."},
-    "C07": {"verus": ["vfw", "vleaf"], "kani": ["k_pad", "k_blk", "k_clamp_limit"], "title": "Per-state limits",
+    "C07": {"verus": ["vfw", "vleaf"], "kani": ["k_pad", "k_blk", "k_clamp_limit", "k_sample_fields"], "title": "Per-state limits",
             "explanation": "limit > 0 is a conjunct of every limited action's predicate (V-LEAF on the real bodies generic in T, K-PAD / K-BLK bit-precise) and scheduling is preceded by a true predicate [C07.pos]; a transition reports Unchanged exactly when the machine entered no state - also across CounterZero round trips (ghost epoch counter) [C07.epoch] - and then keeps state and limit [C07.once]; a completion consumes the limit only if the machine did not change state [C07.own] and only LimitReached deliveries for the machine the completion names occur [C07.own]; decrement_limit saturates at 0 and raises LimitReached exactly when the decremented limit is 0 and the state's action carries a limit, after withdrawing the slot [C07.reach]; sample_limit without a limit distribution is u64::MAX (Kani)."},
     "C08": {"verus": ["vfw"], "kani": ["k_counter_value"], "title": "Counters",
             "explanation": "update_counter's arithmetic equals counter_apply (saturating at 0 and u64::MAX, copy uses the other counter's pre-transition value, unit value 1) [C08.apply]; CounterZero is delivered exactly when a counter of this machine went non-zero -> zero and its per-machine guard was unset [C08.exact][C08.once]; nothing is scheduled or delivered before that [C08.prec]."},
